@@ -117,6 +117,22 @@ CLAIMS = {
         technique="static analysis: guard-vocabulary check + finite-domain abstract evaluation of the accessors against a lattice model (ast)",
         ref="DESIGN.md §3 C14",
     ),
+    "C15": dict(
+        text=(
+            "Decides round-trip clauses of C15 by abstract evaluation of the combinators' own serialize/deserialize code "
+            "on boundary-value grids that are computed from the code: the integer grid of HexInt is the set of constants its "
+            "branches compare against +-1, run-length grids come from each Spaces/IntSpaces instance's own limits (max-1, max, "
+            "max+1, 2max, 2max+1), MultiDigit sequences include every partial trailing group, boards include 1x1, 1xN, Nx1 and "
+            "5x9 (runs beyond one character), Grid with environment and explicit (incl. zero) sizes; every produced text is "
+            "followed by junk so that exact consumption is decided. Rooms/ValuedRooms: every connected partition of the boards "
+            "1x1..3x2 (enumerated), in three room/cell orderings, must come back as the same partition in canonical order with "
+            "each value attached to the same room. (CDC-2) Optional[int] combinator attributes are never tested by truthiness. "
+            "Not decided: values far from any breakpoint in compositions not exercised here."
+        ),
+        note="Trusted: the abstract evaluator; Python's hex/int/str; the boundary-value small-model argument (branch selection only depends on comparisons with the extracted constants).",
+        technique="static analysis: constant/breakpoint extraction + finite-domain abstract evaluation of serialize/deserialize pairs (ast)",
+        ref="DESIGN.md §3 C15",
+    ),
 }
 
 NOT_APPLICABLE = {
